@@ -31,6 +31,10 @@ CHECK = {
     "level_note": "a crash state is a copy of the directories taken while the process is stopped (gate campaign: parked at a gate; kill campaign: SIGSTOP right behind a delayed file system call), which is what a process kill at that instant leaves (page cache contents survive a process kill); power loss (unsynced data, reordered metadata) and torn single write calls are outside; the stop lands behind the chosen call or a few calls later when other threads are writing; a failing crash state is saved inside the replay file and re-judged deterministically by TestVerifC12KillReplay; PCAP-over-IP endpoints are configured (unreachable peers) but deliver no packets",
     "assumptions": [],
     "extra_builds": [{"pkg": "internal/verif/convbin", "out": "convbin"}],
+    "rewrites": [
+        # reassembly snapshots after 4 packets instead of 100000: the scenarios of this check have a few dozen packets
+        {"file": "internal/index/builder/builder.go", "pattern": r">= 100_000\b", "replacement": ">= 4"},
+    ],
     "campaigns": [
         {"test": "TestVerifC12", "checks": {"quick": 800, "thorough": 40000}, "steps": 40, "shrinktime": "90s", "death_is_violation": True,
          "timeout": {"quick": 600, "thorough": 5400}},
